@@ -53,6 +53,32 @@ def load_events(path):
     return ev
 
 
+def directed_inputs(tier):
+    """packets aimed at what lies BEHIND the last byte: a TCP header without payload whose option area ends with an option of every kind
+    and every announced length (so that whatever an iterator reads behind the option lies behind the input, i.e. on the guard page),
+    the same behind IPv4 and IPv6."""
+    out = []
+    eth = [2, 0, 0, 0, 0, 1, 2, 0, 0, 0, 0, 2]
+
+    def tcp(opts):
+        doff = 5 + len(opts) // 4
+        return [0, 80, 0x1f, 0x90, 0, 0, 0, 1, 0, 0, 0, 2, doff << 4, 0x10, 1, 0, 0, 0, 0, 0] + opts
+    sizes = (12, 16, 24, 40) if tier == 'quick' else (4, 8, 12, 16, 20, 24, 28, 32, 36, 40)
+    kinds = (5, 8, 2, 77) if tier == 'quick' else (2, 3, 4, 5, 8, 0, 77)
+    for n in sizes:
+        for k in kinds:
+            for ln in range(0, n + 3):
+                room = min(max(ln, 2), n)
+                opts = [1] * (n - room) + [k, ln] + [(7 * i + k) % 251 for i in range(room - 2)]
+                t = tcp(opts[:n])
+                v4 = [0x45, 0, (20 + len(t)) >> 8, (20 + len(t)) & 255, 0, 1, 0x40, 0, 64, 6, 0, 0, 10, 0, 0, 1, 10, 0, 0, 2]
+                out.append({'bytes': eth + [8, 0] + v4 + t, 'plan': [['eth', 0, 0], ['ether', 0x0800, 14], ['ip', 0, 14], ['ipv4', 0, 14]]})
+                if (n, k) in ((16, 5), (40, 5), (24, 8)) or tier != 'quick':
+                    v6 = [0x60, 0, 0, 0, len(t) >> 8, len(t) & 255, 6, 64] + [0xfd] + [0] * 14 + [1] + [0xfd] + [0] * 14 + [2]
+                    out.append({'bytes': eth + [0x86, 0xdd] + v6 + t, 'plan': [['eth', 0, 0], ['ether', 0x86dd, 14], ['ip', 0, 14], ['ipv6', 0, 14]]})
+    return out
+
+
 def mc_inputs(tier, wd, cutmode):
     cfg = os.path.join(wd, 'MC_Decoder.cfg')
     core.write_cfg(cfg, spec='Spec', constants={'Tier': '"%s"' % tier, 'CutMode': '"%s"' % cutmode},
@@ -61,11 +87,15 @@ def mc_inputs(tier, wd, cutmode):
     viol = core.tlc_violation(out)
     inputs = core.extract_lines(out, 'INPUT')
     path = os.path.join(wd, 'mc_inputs.ndjson')
+    directed = directed_inputs(tier)
     with open(path, 'w') as f:
         for i, x in enumerate(inputs):
             x['id'] = 'm%d' % i
             f.write(json.dumps(x) + '\n')
-    return {'generated': gen, 'distinct': dist, 'violated': viol, 'inputs': path, 'n': len(inputs), 'out': out}
+        for i, x in enumerate(directed):
+            x['id'] = 'd%d' % i
+            f.write(json.dumps(x) + '\n')
+    return {'generated': gen, 'distinct': dist, 'violated': viol, 'inputs': path, 'n': len(inputs) + len(directed), 'out': out}
 
 
 def classify(res, events, pid):
